@@ -28,6 +28,9 @@ struct verif_in {
 	int st_nsec_, f_nsec;
 	uint64_t st_ino_, f_ino;
 	unsigned char before[BS];
+	/* parity reader / writer */
+	int p_ret, p_errno;
+	unsigned p_level;
 	/* task-state region */
 	int tstate;
 	unsigned io_error, error, io_error_limit;
@@ -249,6 +252,61 @@ void h_scrub_data_reader(void)
 				VERIF_ASSERT(T.state == TASK_STATE_DONE && T.read_size == BS && T.file == &FL && T.file_pos == 3, "a successful read hands the block to the verification");
 		}
 	}
+	VERIF_CANARY();
+}
+#endif
+
+
+/* ---------------------------------------------------------------- scrub_parity_reader / sync_parity_writer (whole bodies extracted) */
+#ifdef VERIF_PARITY_RW
+static unsigned g_pr_calls, g_pw_calls2;
+static struct snapraid_parity_handle *g_p_handle;
+static block_off_t g_p_pos;
+static unsigned char *g_p_buf;
+static int q_parity_read(struct snapraid_parity_handle *h, block_off_t pos, unsigned char *buf, unsigned bs, fptr *out)
+{ (void)bs; (void)out; ++g_pr_calls; g_p_handle = h; g_p_pos = pos; g_p_buf = buf; if (IN.p_ret) { errno = IN.p_errno; return -1; } return 0; }
+static int q_parity_write(struct snapraid_parity_handle *h, block_off_t pos, unsigned char *buf, unsigned bs)
+{ (void)bs; ++g_pw_calls2; g_p_handle = h; g_p_pos = pos; g_p_buf = buf; if (IN.p_ret) { errno = IN.p_errno; return -1; } return 0; }
+static const char *q_lev(unsigned l) { (void)l; return "p"; }
+#define parity_read q_parity_read
+#define parity_write q_parity_write
+#define lev_config_name q_lev
+#define lev_name q_lev
+#include "region_scrub_parity_reader.c"
+#include "region_sync_parity_writer.c"
+#undef parity_read
+#undef parity_write
+#undef lev_config_name
+#undef lev_name
+
+void h_parity_rw(void)
+{
+	static struct snapraid_state ST;
+	static struct snapraid_io IO;
+	static struct snapraid_worker W;
+	static struct snapraid_parity_handle PH;
+	static struct snapraid_task T;
+	static unsigned char BUF[BS];
+	VERIF_INPUTS();
+	VERIF_ASSUME(IN.p_level < LEV_MAX);
+	ST.block_size = BS;
+	IO.state = &ST;
+	W.io = &IO;
+	W.parity_handle = &PH;
+	PH.level = IN.p_level;
+	T.position = 9;
+	T.buffer = BUF;
+	T.state = -1;
+	g_pr_calls = g_pw_calls2 = 0;
+	region_scrub_parity_reader(&W, &T);
+	VERIF_ASSERT(g_pr_calls == 1 && g_p_handle == &PH && g_p_pos == 9 && g_p_buf == BUF, "the parity block of this stripe is read into the buffer of this task");
+	VERIF_ASSERT(T.state == (!IN.p_ret ? TASK_STATE_DONE : IN.p_errno == EIO ? TASK_STATE_IOERROR_CONTINUE : TASK_STATE_ERROR_CONTINUE),
+		"parity read: DONE only when the read succeeded; EIO is an I/O error of this stripe, anything else a plain error of this stripe");
+	T.state = -1;
+	region_sync_parity_writer(&W, &T);
+	VERIF_ASSERT(g_pw_calls2 == 1 && g_p_handle == &PH && g_p_pos == 9 && g_p_buf == BUF, "the parity block of this stripe is written from the buffer of this task");
+	VERIF_ASSERT(T.state == (!IN.p_ret ? TASK_STATE_DONE : IN.p_errno == EIO ? TASK_STATE_IOERROR_CONTINUE : TASK_STATE_ERROR),
+		"parity write: DONE only when the write succeeded; EIO is counted and sync goes on, any other failure stops the sync");
 	VERIF_CANARY();
 }
 #endif
